@@ -22,35 +22,60 @@ def specNew (my other : List (Nat × Nat)) : List Nat :=
 def specRemoved (my other : List (Nat × Nat)) : List Nat :=
   (my.filter fun e => (lookupHead other e.1).isNone).map (·.1)
 
+/-- `e` of `my` is on both sides and the heads satisfy `rel otherHead myHead` -/
+def filterRel (other : List (Nat × Nat)) (rel : Nat → Nat → Bool) (e : Nat × Nat) : Bool :=
+  match lookupHead other e.1 with
+  | some h => rel h e.2
+  | none => false
+
+def relNe (h h' : Nat) : Bool := decide (h ≠ h')
+def relOur (h h' : Nat) : Bool := decide (h ≠ h' ∧ ¬ h > h')
+def relTheir (h h' : Nat) : Bool := decide (h ≠ h' ∧ h > h')
+
 /-- ids on both sides with different heads (`Diff`) -/
 def specChanged (my other : List (Nat × Nat)) : List Nat :=
-  (my.filter fun e => match lookupHead other e.1 with | some h => h ≠ e.2 | none => false).map (·.1)
+  (my.filter (filterRel other relNe)).map (·.1)
 
-/-- … split by which head is greater (`CompareDiff`) -/
+/-- … split by which head is greater (`CompareDiff`): ours is not smaller -/
 def specOurChanged (my other : List (Nat × Nat)) : List Nat :=
-  (my.filter fun e => match lookupHead other e.1 with | some h => h ≠ e.2 ∧ ¬ h > e.2 | none => false).map (·.1)
+  (my.filter (filterRel other relOur)).map (·.1)
 
+/-- … theirs is greater -/
 def specTheirChanged (my other : List (Nat × Nat)) : List Nat :=
-  (my.filter fun e => match lookupHead other e.1 with | some h => h ≠ e.2 ∧ h > e.2 | none => false).map (·.1)
+  (my.filter (filterRel other relTheir)).map (·.1)
 
 /-- the canonical index for a sorted element list -/
-def canon {D} (A : DigAlg D) (p : Params) (sl : List Elem) : Index D := ⟨p, sl, buildTop A p sl⟩
+def canon {D} (A : DigAlg D) (S : Splitter) (p : Params) (sl : List Elem) : Index D := ⟨p, sl, buildTop A S p sl⟩
 
-/-- operations of a history -/
+/-- operations of a history: `Set` of one element (new or existing id; `Set(e₁,…,eₙ)` is the
+sequence of its elements, `Index.set`) and `RemoveId` -/
 inductive Op where
-  | set (es : List Elem)
+  | set1 (e : Elem)
   | remove (id hash : Nat)
 
-def Index.step {D} (A : DigAlg D) (ix : Index D) : Op → Index D
-  | .set es => ix.set A es
-  | .remove id h => (ix.remove A id h).getD ix
+def Index.step {D} (A : DigAlg D) (S : Splitter) (ix : Index D) : Op → Index D
+  | .set1 e => ix.set1 A S e
+  | .remove id h => (ix.remove A S id h).getD ix
 
-def Index.run {D} (A : DigAlg D) (ix : Index D) (ops : List Op) : Index D := ops.foldl (Index.step A) ix
+def Index.run {D} (A : DigAlg D) (S : Splitter) (ix : Index D) (ops : List Op) : Index D :=
+  ops.foldl (Index.step A S) ix
 
 /-- the skip list as a pure function of the history (no tree involved) -/
 def slStep (sl : List Elem) : Op → List Elem
-  | .set es => es.foldl (fun sl e => slInsert e (slRemove e.id sl)) sl
+  | .set1 e => slInsert e (slRemove e.id sl)
   | .remove id _ => slRemove id sl
+
+def slRun (sl : List Elem) (ops : List Op) : List Elem := ops.foldl slStep sl
+
+/-- ids determine hashes (`hf` = xxhash64), hashes are 64-bit -/
+def Op.Wf (hf : Nat → Nat) : Op → Prop
+  | .set1 e => e.hash = hf e.id ∧ e.hash < M
+  | .remove id h => h = hf id ∧ h < M
+
+/-- the skip-list invariant: ids determine hashes, ids are distinct -/
+structure SlWf (hf : Nat → Nat) (sl : List Elem) : Prop where
+  hash : ∀ e, e ∈ sl → e.hash = hf e.id ∧ e.hash < M
+  nodup : (sl.map (·.id)).Nodup
 
 /-- a concrete injective digest algebra for `decide`-checked witnesses: a digest is its own
 preimage, flattened to naturals (tag, length, payload) -/
